@@ -38,6 +38,8 @@ def shared_props(ver, kind="marking"):
 def name_menu(kind, ver):
     sfx = "-ext" if kind == "extension" else ""
     m = [("fresh-a", "x-verif-a" + sfx), ("fresh-b", "x-verif-b" + sfx), ("builtin-same", BUILTIN_SAME[kind])]
+    if kind in ("object", "observable"):
+        m.append(("fresh-plain", "verif-plain"))        # a valid name without the conventional x- prefix (code that keys on the prefix treats it like a specification type)
     if kind in BUILTIN_OTHER:
         m.append(("builtin-other", BUILTIN_OTHER[kind]))
     m += [("upper", "X-Verif-a" + sfx), ("underscore", "x_verif_a" + sfx), ("short", "xv"), ("long251", "x" + "a" * (250 - len(sfx)) + sfx), ("empty", ""),
@@ -73,7 +75,7 @@ def all_events():
 
 
 def core_events():
-    return [e for e in all_events() if e["props"] == "valid" and e["name_kind"] in ("fresh-a", "fresh-b", "builtin-same", "builtin-other", "extdef-prop", "extdef-top",
+    return [e for e in all_events() if e["props"] == "valid" and e["name_kind"] in ("fresh-a", "fresh-b", "fresh-plain", "builtin-same", "builtin-other", "extdef-prop", "extdef-top",
                                                                                     "fresh-c+extension_name", "fresh-c+extension_name2", "fresh-f+extension_name-of-c", "fresh-d+extension_name3",
                                                                                     "fresh-e+extension_name3", "fresh-g+extension_name-of-c")]
 
@@ -269,6 +271,33 @@ def probes(model, part, case, touched):
                 err = None
             except (X.STIXError, ValueError, TypeError) as e:
                 got, err = None, e
+            if cat == "objects" and not name.startswith("x-") and name_rule(name, "object", ver) == "valid" and not any(name in b for b in model.builtin.values()):
+                # REFERENCES to the name from content of this version: a type registered for this version is a known type here, one registered for the other version only is not
+                # (names with the x- prefix are custom content for references whatever the registry says: not asserted)
+                for rk, mk in (("relationship.source_ref", lambda ac: mod.Relationship(source_ref=name + "--" + UA + "7", target_ref="malware--" + UA + "8", relationship_type="uses", allow_custom=ac)),
+                               ("sighting.sighting_of_ref", lambda ac: mod.Sighting(sighting_of_ref=name + "--" + UA + "7", allow_custom=ac)),
+                               ("parsed relationship.target_ref", lambda ac: stix2.parse(dict(json.loads(mod.Relationship(source_ref="malware--" + UA + "8", target_ref="malware--" + UA + "8", relationship_type="uses").serialize()),
+                                                                                              target_ref=name + "--" + UA + "7"), version=ver, allow_custom=ac))):
+                    reg_obj = cls is not None
+                    reg_obs = model.custom[(ver, "observables")].get(name) is not None
+                    if rk.startswith("sighting") and reg_obs and not reg_obj:
+                        continue            # a sighting is of an SDO; what a registered custom OBSERVABLE name is there is not stated
+                    known = reg_obj or (reg_obs and not rk.startswith("sighting"))
+                    part.transitions += 2
+                    try:
+                        mk(False)
+                        strict = "accepted"
+                    except (X.STIXError, ValueError, TypeError) as e:
+                        strict = "refused"
+                    try:
+                        flag = mk(True).has_custom
+                    except (X.STIXError, ValueError, TypeError) as e:
+                        flag = "refused: %s" % type(e).__name__
+                    want = ("accepted", False) if known else ("refused", True)
+                    part.outcome("reference-probe:" + strict)
+                    if (strict, flag) != want:
+                        fail("C19/not-version-scoped/reference-to-%s-name/%s" % ("registered" if known else "unregistered", rk.split(".")[0].split(" ")[-1]),
+                             "a reference to a custom type name is not judged by the registry of the referring object's own spec version", list(want), [strict, flag], [cat, name, ver, rk])
             if cls is not None:
                 part.outcome("probe-registered:" + ("resolves" if got is cls else "wrong"))
                 if got is not cls:
